@@ -108,26 +108,35 @@ def _(c):
         back = l2r(date, l1, typ)
         c.ensure("ltan.range", sym.And(l1 >= 0, l1 < 86400))
         # both results lie in one revolution; they differ from the inputs by whole revolutions
-        mi = c.run.modinfo
-        k1, k2 = mi[str(l1.e)][2], mi[str(back.e)][2]
-        c.lemma("raan.revolutions", sym.SInt(k1) + sym.SInt(k2) == 0, budget_ms=60000)
+        # (the revolution counts are those of the code's own `%`; code that wraps another way goes without the lemma)
+        mi = getattr(c.run, "modinfo", {})
+        q1, q2 = mi.get(str(l1.e)), mi.get(str(back.e))
+        if q1 and q2:
+            c.lemma("raan.revolutions", sym.SInt(q1[2]) + sym.SInt(q2[2]) == 0, budget_ms=60000)
         c.ensure("raan.roundtrip", back == raan)
         r1 = l2r(date, ltan, typ)
         back2 = r2l(date, r1, typ)
-        k3, k4 = mi[str(r1.e)][2], mi[str(back2.e)][2]
-        c.lemma("ltan.revolutions", sym.SInt(k3) + sym.SInt(k4) == 0, budget_ms=60000)
+        c.ensure("raan.range", sym.And(r1 >= 0, r1 < 2 * c.pi))
+        q3, q4 = mi.get(str(r1.e)), mi.get(str(back2.e))
+        if q3 and q4:
+            c.lemma("ltan.revolutions", sym.SInt(q3[2]) + sym.SInt(q4[2]) == 0, budget_ms=60000)
         c.ensure("ltan.roundtrip", back2 == ltan)
     else:
         import beyond.utils.ltan as m
         from beyond.dates import Date
         c.require(raan < 2 * math.pi)
         date = Date(c.real("day"))
-        back = m.ltan2raan(date, m.raan2ltan(date, raan, typ), typ)
+        l1 = m.raan2ltan(date, raan, typ)
+        c.ensure("ltan.range", 0 <= l1 <= 86400)  # (86400.0 itself can come out of float rounding at the seam: S1)
+        back = m.ltan2raan(date, l1, typ)
         d = abs(back - raan)
-        c.ensure("raan.roundtrip", min(d, 2 * math.pi - d) < 1e-9)
-        back2 = m.raan2ltan(date, m.ltan2raan(date, ltan, typ), typ)
+        # away from the seam the inverse is exact as it stands; within 1e-6 of it, up to one revolution (float rounding, S1)
+        c.ensure("raan.roundtrip", d < 1e-9 if 1e-6 < raan < 2 * math.pi - 1e-6 else min(d, 2 * math.pi - d) < 1e-9)
+        r1 = m.ltan2raan(date, ltan, typ)
+        c.ensure("raan.range", 0 <= r1 <= 2 * math.pi)
+        back2 = m.raan2ltan(date, r1, typ)
         d2 = abs(back2 - ltan)
-        c.ensure("ltan.roundtrip", min(d2, 86400 - d2) < 1e-5)
+        c.ensure("ltan.roundtrip", d2 < 1e-5 if 1e-2 < ltan < 86400 - 1e-2 else min(d2, 86400 - d2) < 1e-5)
 
 
 # ------------------------------------------------------------------------------------------
